@@ -201,13 +201,24 @@ def run(prog: Program, ctx: Ctx) -> None:  # noqa: PLR0912,PLR0915
         wm = new8("Module", "shop", filepath=PurePosixPath("/s/shop.py"))
         smf = prog.lookup_method(wm.cls, "set_member")[0]
         for mem in (new8("Attribute", "top", lineno=1, endlineno=1), new8("Alias", "imported", "os.path.join", lineno=2, endlineno=2),
-                    new8("Alias", "os/path/*", "os.path", lineno=3, endlineno=3), new8("Function", "f", lineno=4, endlineno=5), new8("Class", "K", lineno=6, endlineno=7)):
+                    new8("Alias", "os/path/*", "os.path", lineno=3, endlineno=3), new8("Function", "f", lineno=4, endlineno=5), new8("Class", "K", lineno=6, endlineno=7),
+                    new8("Function", "synth", lineno=0, endlineno=0)):  # the span the dataclasses extension gives the constructor it synthesises
             it.call(smf, wm, mem.attrs["name"], mem)
         for full_ in (False, True):
             written = it.call(prog.lookup_method(wm.cls, "as_dict")[0], wm, full=full_)
             keys_ = sorted(written["members"]) if isinstance(written.get("members"), dict) else sorted(m_["name"] for m_ in written.get("members", []))
             ctx.ob("R2", f"writer|every member written|full={full_}", keys_ == sorted(wm.attrs["members"]),
                    f"Module.as_dict(full={full_}) writes members {keys_}; the module has {sorted(wm.attrs['members'])}", where(prog.lookup_method(wm.cls, "as_dict")[0]))
+            wmem = written["members"] if isinstance(written.get("members"), dict) else {m_["name"]: m_ for m_ in written.get("members", [])}
+            for nm_, mo_ in wm.attrs["members"].items():
+                wd_ = wmem.get(nm_)
+                if not isinstance(wd_, dict) or mo_.cls.name == "Alias":
+                    continue
+                for key_ in ("lineno", "endlineno"):
+                    have_ = mo_.attrs.get(key_)
+                    ctx.ob("R2", f"writer|span written as stored|{nm_}.{key_}|full={full_}", wd_.get(key_) == have_,
+                           f"{nm_}.{key_} is {have_!r}, the writer emits {wd_.get(key_, '<no key>')!r} (a span of 0 is a span: the reader turns a missing key into None)",
+                           where(prog.lookup_method(mo_.cls, "as_dict")[0]))
     except Raised as r:
         ctx.ob("R2", "writer|every member written", False, f"writing a small module raises {r.exc}", where(jd))
 
